@@ -319,6 +319,9 @@ func (s *Sim) checkC10(ctx *StepCtx, ureps []*URep) {
 			s.probe("c10.dropped.unknown", 1)
 			continue // URR unknown to the session: must be dropped
 		}
+		if m.delFaulted[RuleKey{"urr", x.UP, uint64(k.URRID)}] {
+			continue
+		}
 		if (k.Via == "multi" || k.Via == "mcast") && ctx.Kind == "deliver" && ctx.Dg.Intent != nil {
 			// likewise for a URR this very message removes
 			for _, r := range ctx.Dg.Intent.Remove {
@@ -337,6 +340,9 @@ func (s *Sim) checkC10(ctx *StepCtx, ureps []*URep) {
 		exps = append(exps, e)
 	}
 	for _, u := range ureps {
+		if u.Sess != nil && m.delFaulted[RuleKey{"urr", u.Sess.UP, uint64(u.URRID)}] {
+			continue // its removal was refused by the data plane earlier: outside what is judged
+		}
 		// find the measurement this report carries
 		var hit *exp
 		for _, e := range exps {
